@@ -123,6 +123,32 @@ def extra(rep, cov, tier, rng):
                 rep.violation("randomness repeats across threads (%s): %s unseeded key pairs of which %s distinct, %s randomized signatures of which %s distinct "
                               "(%d threads x %d calls)" % ((cp,) + tuple(r or ["?"] * 4) + (threads, per)),
                               {"cases": [{"fn": "rng_threads", "copy": cp, "args": [str(threads), str(per), "x" + sk.hex()]}]}, True)
+    # environment-dependent randomness: every environment variable NAME the library source mentions is set (to "", "1", "seed") and the
+    # freshness probe repeated; outputs must stay pairwise distinct and unpredictable from the variable
+    import re, glob, vcore
+    names = set()
+    for f in glob.glob("/repo/src/**/*.rs", recursive=True):
+        if f.endswith("verif_hooks.rs"):
+            continue
+        src = open(f).read().split("#[cfg(test)]")[0]
+        names.update(re.findall(r'(?:env::var|env::var_os|option_env!|env!)\s*\(\s*"([A-Za-z_][A-Za-z0-9_]*)"', src))
+    cov["environment_variables_read_by_the_library"] = sorted(names)
+    for name in sorted(names):
+        for val in ("", "1", "seed"):
+            vcore.ENV[name] = val
+            try:
+                for cp in ALL:
+                    pk, sk = keygen(cp, bytes(rng.randrange(256) for _ in range(32)))
+                    r = crate([("rng_threads", cp, [2, 4, sk])])[0]
+                    r2 = crate([("rng_threads", cp, [1, 2, sk])])[0]
+                    n += 24
+                    if r is None or r[0] != r[1] or r[2] != r[3]:
+                        rep.violation("with the environment variable %s=%r set, randomness repeats (%s): %s unseeded key pairs of which %s distinct, %s randomized "
+                                      "signatures of which %s distinct" % ((name, val, cp) + tuple(r or ["?"] * 4)),
+                                      {"cases": [{"fn": "rng_threads", "copy": cp, "args": ["2", "4", "x" + sk.hex()], "environment": {name: val}}]}, True)
+                        break
+            finally:
+                vcore.ENV.pop(name, None)
     import subprocess
     rc = subprocess.run("grep -rn 'thread_rng\\|try_fill_bytes' /repo/src --include=*.rs | grep -v verif_hooks | wc -l", shell=True, stdout=subprocess.PIPE)
     cov["advisory_rng_call_sites"] = rc.stdout.decode().strip()
